@@ -64,6 +64,9 @@ def run(ck, m):
         ck.ob("R1", f, ok, f"{meth}(): the finalized-iterator guard must be the first statement", stmt=f"{meth}: closed guard first")
         g = CFG(f)
         raises = [n for n in g.nodes if n.kind == "stmt" and isinstance(n.ast, ast.Raise)]
+        # (the validating constructor of render arguments raises IncompatibleRenderArgsError: a statement that calls it is a validation step too)
+        raises += [n for n in g.nodes if n.kind in ("stmt", "test") and n.ast is not None and not isinstance(n.ast, (ast.If, ast.While, ast.For, ast.Try, ast.With))
+                   and any(isinstance(c_, ast.Call) and (call_name(c_) or "").split(".")[-1] == "RenderArgs" for c_ in ast.walk(n.ast))]
         for s in [n for n in g.nodes if _is_state_store(n)]:
             p = g.search([s], lambda n: n in raises, edge_ok=lambda a, lab, d: not lab.startswith(("e:", "p:")))
             ck.ob("R2", s.ast, p is None, f"{meth}(): state is changed by `{short(s.ast, 50)}` and a validation error can still be raised afterwards ({fmt_path(p) if p else ''}): "
